@@ -3,6 +3,7 @@
 package checks
 
 import (
+	"bytes"
 	"encoding/json"
 	"fmt"
 	"strconv"
@@ -133,6 +134,14 @@ func (w *World) applyEvent(ev string) bool {
 			return false
 		}
 		w.sendRaw(w.P, w.P.sentLog[len(w.P.sentLog)-1])
+		w.settle()
+	case "duph": // duph:<k>: the k-th last headers message of this connection is delivered again (late duplicate)
+		k, _ := strconv.Atoi(p[1])
+		m := w.nthLastHeaders(k)
+		if m == nil {
+			return false
+		}
+		w.sendRaw(w.P, m)
 		w.settle()
 	case "drop":
 		if w.P == nil || w.P.conn == nil {
@@ -535,6 +544,9 @@ func (w *World) eventEnabled(ev string) bool {
 		return w.P != nil && w.P.conn != nil && !w.P.conn.IsClosed()
 	case "dup":
 		return w.P != nil && len(w.P.sentLog) > 0
+	case "duph":
+		k, _ := strconv.Atoi(p[1])
+		return w.nthLastHeaders(k) != nil
 	case "uh", "uinv", "utx", "uxtx", "ublock", "uxblock", "uaddr", "ugarbage":
 		pc := w.U[untrustedAddrs[0]]
 		return pc != nil && pc.conn != nil && !pc.conn.IsClosed() && !pc.conn.Peer.IsClosed()
@@ -731,4 +743,34 @@ func (w *World) crashAfter(t int64) bool {
 		}
 	}
 	return false
+}
+
+// nthLastHeaders returns the raw bytes of the k-th last non-empty headers message sent on the trusted connection.
+func (w *World) nthLastHeaders(k int) []byte {
+	if w.P == nil || w.P.conn == nil || w.P.conn.IsClosed() {
+		return nil
+	}
+	for i := len(w.P.sentLog) - 1; i >= 0; i-- {
+		m := w.P.sentLog[i]
+		if len(m) > 25 && strings.HasPrefix(string(m[4:16]), "headers") {
+			if k == 0 {
+				// peer assumption: a Bitcoin node does not announce again a branch it has abandoned; only
+				// announcements whose blocks are all still on its best chain can show up a second time
+				msg, _, err := wire.ReadMessage(bytes.NewReader(m), wire.ProtocolVersion, netMagic)
+				hm, ok := msg.(*wire.MsgHeaders)
+				if err != nil || !ok || len(hm.Headers) == 0 {
+					return nil
+				}
+				for _, h := range hm.Headers {
+					n, known := w.Tree.byHash[*h.BlockHash()]
+					if !known || !w.onBest(n) {
+						return nil
+					}
+				}
+				return m
+			}
+			k--
+		}
+	}
+	return nil
 }
